@@ -494,12 +494,13 @@ pub fn close(seed: u64, out: &mut Outcome) {
     let act_step = rng.range(1, 120);
     let mut acted_at: Option<u64> = None;
     let mut acted_after_handshake = false;
-    let code = rng.below(1000) as u32;
-    let reason: Vec<u8> = rng.bytes(rng.clone().below(40) as usize);
+    let code = *rng.pick(&[rng.clone().below(1000) as u32, 16383, 16384, (1 << 30) - 1, 1 << 30, u32::MAX]);
+    let rl = *rng.pick(&[0usize, 5, 39, 1100, 1190, 1300, 1500, 3000]);
+    let reason: Vec<u8> = rng.bytes(rl);
     let mut close_tx_ok: Vec<(usize, bool)> = Vec::new();
     let mut closer_had_hs_keys = [false; 2];
     let mut vanished: Option<usize> = None;
-    let horizon = 90_000_000_000u64;
+    let horizon = 200_000_000_000u64;
     let end = sim.run_until(horizon * 3, 300_000, |sim| {
         if w.ch[SERVER].is_none() {
             if let Some(&ch) = sim.nodes[SERVER].accepted.first() {
@@ -533,6 +534,9 @@ pub fn close(seed: u64, out: &mut Outcome) {
                 match t {
                     Some(t) => {
                         close_tx_ok.push((node, true));
+                        if t.size > before.path.current_mtu as usize {
+                            sim.fail("datagram-exceeds-mtu", format!("node {node}: closing datagram of {} bytes > current_mtu {} (code {code}, reason {} bytes)", t.size, before.path.current_mtu, reason.len()));
+                        }
                         let data = buf[..t.size].to_vec();
                         let from = sim.nodes[node].addr;
                         *sim.nodes[node].sent_to.entry(t.destination).or_default() += t.size as u64;
@@ -646,7 +650,7 @@ pub fn close(seed: u64, out: &mut Outcome) {
             if let (Some(_), None, Some(pch)) = (closed_local, vanished, w.ch[peer]) {
                 if action != 2 && action != 7 && acted_after_handshake {
                     let pl = sim.nodes[peer].conns[&pch].obs.lost.clone();
-                    let want = format!("error_code: {code}");
+                    let want = format!("error_code: {code},");
                     // the generic APPLICATION_ERROR is what a closer announces in the Initial/Handshake spaces,
                     // which it must still use while it holds those keys
                     let generic_ok = closer_had_hs_keys[node] && pl.len() == 1 && pl[0].contains("APPLICATION_ERROR");
@@ -770,6 +774,7 @@ pub fn migrate(seed: u64, out: &mut Outcome) {
     let server = quinn_proto::Endpoint::new(Arc::new(endpoint_config(seed ^ 1, 8, None)), Some(Arc::new(scfg)), true);
     let client = quinn_proto::Endpoint::new(Arc::new(endpoint_config(seed ^ 2, 8, None)), None, true);
     let mut sim = Sim::new(seed, client, server, clock);
+    sim.path_may_migrate = [false, migration_enabled];
     let ccfg = client_config(seed, tc);
     sim.model_trace = true;
     sim.keep_history = true;
